@@ -50,7 +50,7 @@ class Check:
     def __init__(self, pid, tier, keep=False, only=None):
         self.pid = pid; self.tier = tier; self.keep = keep; self.only = only
         self.spec = importlib.import_module('specs.' + pid)
-        self.bdir = os.path.join(VERIF, 'build', '%s-%s' % (pid, tier))
+        self.bdir = os.path.join(VERIF, 'build', '%s-%s%s' % (pid, tier, os.environ.get('VERIF_BUILD_TAG', '')))   # VERIF_BUILD_TAG lets two runs of one check coexist (seeded-change runs)
         self.t0 = time.time()
         self.known = load_known()
         self.open_kf = {f['id']: f for f in self.known.get('findings', []) if f['property'] == pid}
@@ -187,7 +187,7 @@ class Check:
         return False, 'native run exit code %s: %s' % (rc, out.strip()[-200:])
 
     def write_replay(self, job, label, vals):
-        rd = os.path.join(VERIF, 'replays', self.pid)
+        rd = os.path.join(VERIF, 'replays', self.pid + os.environ.get('VERIF_BUILD_TAG', ''))
         os.makedirs(rd, exist_ok=True)
         fn = os.path.join(rd, '%s.%s-%s.in' % (job.name.replace('/', '_'), re.sub(r'[^A-Za-z0-9]+', '_', label)[:40], hashlib.sha1(label.encode()).hexdigest()[:6]))
         with open(fn, 'w') as f:
@@ -458,8 +458,10 @@ class Check:
             'wall_s': round(time.time() - self.t0, 1),
             'violations': len(violations),
         }
-        os.makedirs(os.path.join(VERIF, 'evidence'), exist_ok=True)
-        with open(os.path.join(VERIF, 'evidence', self.pid + '.json'), 'w') as f:
+        # a partial run (--only) or a run against a deliberately modified tree (tools/run_seeded.sh) must not replace the evidence of a full run
+        edir = os.environ.get('VERIF_EVIDENCE_DIR') or (os.path.join(VERIF, 'build', 'evidence_partial') if self.only else os.path.join(VERIF, 'evidence'))
+        os.makedirs(edir, exist_ok=True)
+        with open(os.path.join(edir, self.pid + '.json'), 'w') as f:
             json.dump(ev, f, indent=1)
 
 
